@@ -113,13 +113,22 @@ def run_program(codes, numeric, prepop):
         version[0] += 1
         return dict(k=kval(numeric, key), v=version[0], t=u"common " + key, s=version[0], g=u"g" + key), version[0]
 
-    if prepop:
+    if prepop == 2:
+        # both keys in one segment, so that successive deletions hit the same segment
+        w = ix.writer(codec=W3Codec(blocklimit=2))
+        for key in KEYS:
+            d, v = doc(key)
+            w.add_document(**d)
+            model.committed.append((key, v))
+        w.commit()
+    elif prepop:
         for key in KEYS:
             w = ix.writer(codec=W3Codec(blocklimit=2))
             d, v = doc(key)
             w.add_document(**d)
             w.commit(merge=False)
             model.committed.append((key, v))
+    held = ix.searcher()        # a searcher held across the whole program and refreshed after every commit/cancel
     w = None
     nontrivial = False
     steps = []
@@ -193,6 +202,11 @@ def run_program(codes, numeric, prepop):
                 err = check_index(ix, model, numeric, where)
                 if err:
                     return err, True
+                held = held.refresh()
+                got = sorted((d_["k"], d_["v"]) for d_ in held.reader().all_stored_fields())
+                want = sorted((kval(numeric, k_), v_) for k_, v_ in model.committed)
+                if got != want or held.doc_count() != len(want):
+                    return "%s: the held searcher after refresh() holds %r (doc_count %d), model %r" % (where, got, held.doc_count(), want), True
                 if c == 9 and ix.reader().has_deletions():
                     return "%s: deletions remain after optimize" % where, True
             elif c == 11:
@@ -214,11 +228,11 @@ FUNCS = ["whoosh.writing.SegmentWriter.add_document", "whoosh.writing.IndexWrite
 
 
 def _mk(numeric, prepop):
-    name = "c07_prog_%s_%s" % ("numeric" if numeric else "id", "prepop" if prepop else "empty")
+    name = "c07_prog_%s_%s" % ("numeric" if numeric else "id", "prepop1seg" if prepop == 2 else ("prepop" if prepop else "empty"))
 
     @h(bounds="all programs of %d operations over %d operation kinds (add/update/delete_by_term/delete_by_query/delete_document on keys a,b; "
               "commit, optimize, merge=False, cancel) + final commit; unique field %s; index %s; checked after every commit/cancel"
-              % (L, NOPS, "NUMERIC" if numeric else "ID", "pre-populated with a and b in two segments" if prepop else "initially empty"),
+              % (L, NOPS, "NUMERIC" if numeric else "ID", "pre-populated with a and b in one segment" if prepop == 2 else ("pre-populated with a and b in two segments" if prepop else "initially empty")),
        funcs=FUNCS, examples=[dict(codes=[2, 8, 4][:L] + [0] * max(0, L - 3)), dict(codes=[0, 11, 1][:L] + [8] * max(0, L - 3))],
        outside="more than two keys, several unique fields, add_field/remove_field inside programs, programs outside the key discipline",
        timeout=dict(quick=900, thorough=3000))
@@ -253,6 +267,8 @@ for _num in (False, True):
     for _pp in (True, False):
         _n, _f = _mk(_num, _pp)
         globals()[_n] = _f
+_n, _f = _mk(False, 2)
+globals()[_n] = _f
 
 
 # ------------------------------------------------------------------ several unique fields
